@@ -275,6 +275,8 @@ def audit(pid, workdir, broken=()):
     for m in re.finditer(r"'([^']+)' does not depend on any axioms", out):
         found[m.group(1)] = set()
     for n in names:
+        if n not in printable:
+            continue                                     # its module did not build; reported by the translation job
         if n not in found:
             problems.append(f"theorem {n} does not check (missing or erroneous): {out.strip()[-300:]}")
         elif not found[n] <= STD_AXIOMS:
